@@ -10,9 +10,9 @@ old = {c["property_id"]: c for c in M["checks"]}
 ALL = [json.loads(l)["id"] for l in open(os.path.join(ROOT, "properties.jsonl"))]
 
 CONN_TEXT = {
-    "C06": "progress / no lost wake-up: Lean theorems on the waker bookkeeping of the connection model (who is parked, who wakes whom); correspondence of the real connection with the model INCLUDING every wake-up fired per operation; two real endpoints under a strict executor (a task runs only when woken) with a progress oracle",
+    "C06": "progress / no lost wake-up: Lean theorems on the waker bookkeeping of the connection model (who is parked, who wakes whom), incl. for every reachable connection state: Connection::poll answers Pending only parked with everything writable drained (safety form of liveness; liveness under a fair scheduler itself is not stated); correspondence of the real connection with the model INCLUDING every wake-up fired per operation; two real endpoints under a strict executor (a task runs only when woken) with a progress oracle",
     "C07": "everything resolves at the end: Lean theorems on the model's end-of-connection paths (recv_eof / handle_error / GOAWAY / drop); correspondence incl. wake-ups; two real endpoints ended in every way under a strict executor with an everything-resolves oracle",
-    "C08": "no panic / wedge / busy loop: Lean theorems that the model's recorded assert/unwrap sites do not fire and that its fuelled loops have enough fuel (bounded work); correspondence of the real connection with the model on generated AND mutated (hostile) histories, panics of the real code caught per operation; self-wake-without-progress rule",
+    "C08": "no panic / wedge / busy loop: Lean theorems that the model's recorded assert/unwrap sites do not fire in any state reachable by the covered operations (35-40 operations with arbitrary arguments; named hypotheses: library-reset quota, decoder bounds, three state invariants of poll_complete) and that its fuelled loops have enough fuel (bounded work); correspondence of the real connection with the model on generated AND mutated (hostile) histories, panics of the real code caught per operation; self-wake-without-progress rule",
     "C09": "violations detected and contained, legal traffic tolerated: Lean theorems on the model's frame dispatch (which frames are connection errors, stream errors, ignored); correspondence; the three-way verdict monitor (Spec/Verdict.lean) on a catalogue of injected frames, one entry per RFC rule, after random legal prefixes",
     "C13": "malformed messages: Lean theorems on the model's header-block loader and message conversion against the RFC 9113 section 8 reference predicate (Spec/Http.lean); correspondence; delivered/generated-message monitors on real traces with malformed heads and trailers injected",
     "C15": "GOAWAY / shutdown: Lean theorems on the GoAway sub-machine and the stream layer's GOAWAY handling in the model; correspondence; GOAWAY monitors (monotone last id, nothing new after, streams above fail) on the real wire trace",
